@@ -18,7 +18,12 @@ fn key_val(r: &mut Rng, ty: Ty, small: bool) -> DataValue {
             0 => *r.pick(&[-3000000000i64, 3000000000, 4294967296, 4294967301]),
             _ => if small { r.range(0, 6) } else { r.range(0, 30) },
         }),
-        Ty::Str => DataValue::String((*r.pick(&["", "a", "ab", "abcd", "abcde", "b", "bcde", "c", "d", "e", "zz", "zzzzz", "B"])).into()),
+        Ty::Str | Ty::Char => DataValue::String((*r.pick(&["", "a", "ab", "abcd", "abcde", "b", "bcde", "c", "d", "e", "zz", "zzzzz", "B"])).into()),
+        Ty::I16 => DataValue::Int16(match r.below(12) {
+            0 => *r.pick(&[-32767i16, 32767, -100, 100]),
+            _ => if small { r.range(0, 6) as i16 } else { r.range(0, 30) as i16 },
+        }),
+        Ty::Bool => DataValue::Bool(r.chance(1, 2)),
     }
 }
 
@@ -38,21 +43,24 @@ fn gen_case(r: &mut Rng, id: usize) -> Case {
     };
     let key = r.below(ncols as u64) as usize; // the column the range predicates are on
     let pk = if pkdecl == PkDecl::None { None } else { Some(key) };
-    let kty = match r.below(10) {
-        0..=5 => Ty::I32,
-        6 | 7 => Ty::I64,
-        _ => Ty::Str,
+    let nobg = r.chance(1, 5); // explicit compaction passes (distinct keys then)
+    let kty = match r.below(20) {
+        0..=9 => Ty::I32,
+        10..=12 => Ty::I64,
+        13 | 14 => Ty::Str,
+        15 | 16 => Ty::I16,
+        17 => Ty::Char,
+        _ => if nobg { Ty::I16 } else { Ty::Bool },
     };
     let mut cols = vec![];
     for i in 0..ncols {
         if i == key {
             cols.push(ColDef { ty: kty, nullable: pk.is_none() && r.chance(1, 3) });
         } else {
-            cols.push(ColDef { ty: *r.pick(&[Ty::I32, Ty::I32, Ty::I64, Ty::Str]), nullable: r.chance(1, 2) });
+            cols.push(ColDef { ty: *r.pick(&[Ty::I32, Ty::I32, Ty::I32, Ty::I64, Ty::Str, Ty::I16, Ty::Bool]), nullable: r.chance(1, 2) });
         }
     }
     let block = *r.pick(&[24usize, 24, 32, 32, 64, 128, 16384]);
-    let nobg = r.chance(1, 5); // explicit compaction passes (distinct keys then)
     let small = !nobg && r.chance(2, 5); // small key domain: duplicates (PRIMARY KEY is not enforced)
     let nins = *r.pick(&[1usize, 1, 2, 2, 3]);
     let mut ops = vec![];
@@ -80,7 +88,9 @@ fn gen_case(r: &mut Rng, id: usize) -> Case {
                             v = match c.ty {
                                 Ty::I32 => DataValue::Int32(r.range(31, 5000) as i32),
                                 Ty::I64 => DataValue::Int64(r.range(31, 5000)),
-                                Ty::Str => DataValue::String(format!("k{}", r.range(0, 5000)).into()),
+                                Ty::I16 => DataValue::Int16(r.range(31, 5000) as i16),
+                                Ty::Bool => DataValue::Bool(r.chance(1, 2)),
+                                Ty::Str | Ty::Char => DataValue::String(format!("k{}", r.range(0, 5000)).into()),
                             };
                         }
                         used.push(canon_value(&v));
@@ -121,7 +131,7 @@ fn gen_case(r: &mut Rng, id: usize) -> Case {
         let natoms = *r.pick(&[1usize, 1, 1, 2, 2]);
         for _ in 0..natoms {
             let op = *r.pick(&["=", ">", ">=", "<", "<="]);
-            let v = if kty == Ty::I64 && r.chance(1, 2) {
+            let v = if (kty == Ty::I64 && r.chance(1, 2)) || kty == Ty::I16 {
                 // an int literal against a bigint key (what SQL text gives for small numbers)
                 key_val(r, Ty::I32, small)
             } else {
@@ -179,7 +189,7 @@ fn gen_case(r: &mut Rng, id: usize) -> Case {
             if r.chance(1, 2) { sc.insert(0, key) } else { sc.push(key) }
         }
         let bnd = |r: &mut Rng| -> Bnd {
-            let v = if kty == Ty::I64 && r.chance(1, 3) { key_val(r, Ty::I32, small) } else { key_val(r, kty, small) };
+            let v = if (kty == Ty::I64 || kty == Ty::I16) && r.chance(1, 3) { key_val(r, Ty::I32, small) } else { key_val(r, kty, small) };
             match r.below(3) {
                 0 => Bnd::Unb,
                 1 => Bnd::Incl(v),
